@@ -12,7 +12,7 @@ CHECKS = {
    "Trusted: unicode-width as the measure (min of per-char sum and string width, so control characters in link targets are not counted); proptest generators; documents up to ~100 nodes.",
    "property-based testing (proptest; validity predicate over generated and byte-mutated documents)"),
  "C03": ("exploration",
-   "Conservation oracle against an independent oracle DOM (the harness's own html5ever TreeSink): one identifying character per text node turns lost / duplicated / reordered / invented text into sequence and multiset comparisons (sequence for table-free documents and raw mode; multiset plus per-cell order for tables); every non-pool visible character must be in the decorator's markup alphabet. Byte-mutated documents are compared under the trivial decorator.",
+   "Conservation oracle against an independent oracle DOM (the harness's own html5ever TreeSink): one identifying character per text node turns lost / duplicated / reordered / invented text into sequence and multiset comparisons (sequence for table-free documents and raw mode; multiset plus per-cell order for tables); every non-pool visible character must be in the decorator's markup alphabet. Byte-mutated documents are compared under the trivial decorator. A further sub-check renders regular tables with empty / blank cells and colspans in raw mode or without borders, where the whole document must keep document order.",
    "Trusted: html5ever; whitespace and control characters are outside the claim; three input classes are known findings (starved colspan cell, caption, stray ol/dl children) and excluded by construction / predicate.",
    "property-based testing (proptest) against an independent oracle DOM (conservation / differential)"),
  "C04": ("exploration",
@@ -32,7 +32,7 @@ CHECKS = {
    "Trusted: the standard decorators' prefix strings; the inner rendering uses the same public API (a defect that affects wrapped and unwrapped rendering identically is invisible here and is the business of C04/C02/C03).",
    "property-based testing (proptest; compositional differential oracle on sub-documents)"),
  "C08": ("exploration",
-   "Generated documents with identifying characters in link texts: the trailing footnote block must un-wrap to `[k]: target_k` for exactly the links with visible content (AST oracle), every link's last character is followed by its `[k]` on the document-order stream (raw-mode rendering for documents with tables), references are 1..n once each, rich annotations separate link text from references, nothing appears when disabled.",
+   "Generated documents with identifying characters in link texts: the trailing footnote block must un-wrap to `[k]: target_k` for exactly the links with visible content (AST oracle), every link's last character is followed by its `[k]` on the document-order stream (raw-mode rendering for documents with tables), references are 1..n once each, rich annotations separate link text from references, nothing appears when disabled. An enumerated family puts a link around each of 11 block constructs at each position among three links in 4 outer contexts and 3 widths.",
    "Trusted: digit/punctuation link targets; marker parser skips closing markup and prefixes; deep-empty links are a known finding.",
    "property-based testing (proptest; reference numbering model + output parser)"),
  "C09": ("exploration",
@@ -44,7 +44,7 @@ CHECKS = {
    "Trusted: string_from_read as the reference route; identity colour map.",
    "property-based testing (proptest; operation histories vs fresh one-shot rendering, differential)"),
  "C11": ("exploration",
-   "Generated documents (grammar + byte-mutated), widths 0..=60, option mixes; four relations: width 0 => TooNarrow; overflow => always Ok; overflow is a no-op when rendering already succeeds; overflow lines bounded by max(w, P + max(min_wrap,5)) with P computed from the AST.",
+   "Generated documents (grammar + byte-mutated), widths 0..=60, option mixes; four relations: width 0 => TooNarrow; overflow => always Ok; overflow is a no-op when rendering already succeeds; overflow lines bounded by max(w, P + max(min_wrap,5)) with P computed from the AST. An enumerated family (27 nearly-empty contents x 13 prefixed contexts x width 0..5 x 3 decorators) covers the places where a block is laid out at width zero.",
    "Trusted: AST-derived prefix widths of the standard decorators; table-free documents for the bound.",
    "property-based testing (proptest; metamorphic relations between render(d,w,o) and render(d,w,o+overflow), AST-derived bound)"),
  "C12": ("exploration",
@@ -60,7 +60,7 @@ CHECKS = {
    "Trusted: identifying characters and digit-only link targets separate text from markup; the prefix parser over-approximates; blank <pre> under padding is a known finding.",
    "property-based testing (proptest; one metamorphic relation per option)"),
  "C13": ("exploration",
-   "Metamorphic: a table-free, pre-free grammar document and a source-level rewrite of it (whitespace-run substitution, adjacent comments, layout whitespace between block tags, span wrapping) must render byte-identically at every width when both render.",
+   "Metamorphic: a table-free, pre-free grammar document and a source-level rewrite of it (whitespace-run substitution, adjacent comments, layout whitespace between block tags, span wrapping) must render byte-identically at every width when both render. An enumerated family of 4320 pairs spells the white space next to block-like parts in unusual places (list parts outside lists, blocks in inline wrappers) in five equivalent ways.",
    "Trusted: the rewriter only produces the rewrites the property names; Ok/TooNarrow disparity is counted, not asserted.",
    "property-based testing (proptest; metamorphic source rewrite)"),
  "C16": ("exploration",
